@@ -450,7 +450,7 @@ fn cmd_check(args: &[String]) -> i32 {
     let seed = simcore::verif_seed();
     let runs: u64 = arg(args, "--runs").and_then(|s| s.parse().ok()).unwrap_or(if tier == "thorough" { 3_000_000 } else { 150_000 });
     println!("netsim check property=C27 tier={} VERIF_SEED={} runs={}", tier, seed, runs);
-    let cfg = BatchCfg { runs, workers: simcore::runner::default_workers(), base_seed: seed, label: 27, wall_cap: Duration::from_secs(if tier == "thorough" { 3600 } else { 600 }), run_timeout: Duration::from_secs(30), max_samples: 3 };
+    let cfg = BatchCfg { runs, workers: simcore::runner::default_workers(), base_seed: seed, label: 27, wall_cap: Duration::from_secs(if tier == "thorough" { 3600 } else { 600 }), run_timeout: Duration::from_secs(300), max_samples: 3 };
     let batch = run_batch(&cfg, |s, _| run(s));
     let mut exit = 0;
     if !batch.harness_panics.is_empty() {
